@@ -582,3 +582,245 @@ def check_owned_keys(ctx, rep):
             else:
                 rep.ok("T-HAYSON", key, b.where(bi), "%s::<%s>: owned" % (fn.split("::")[-1], ", ".join(x.split("::")[-1] for x in targs)))
     return n
+
+
+def check_typed_deserializers(ctx, rep):
+    """`impl Deserialize for T` (the typed entry points `serde_json::from_str::<T>`): each decodes a Value and succeeds exactly when
+    that value is of T's own kind - by a match on the value's variant or by the kind predicate `is_<t>()`"""
+    from rules import pathcond as PC
+
+    prog = ctx.prog
+    vv = K.variants(prog, K.VAL)
+    vnames = {d: n for n, d in vv}
+    names = {n for n, _ in vv}
+    n = 0
+    for b in prog.bodies.values():
+        im = b.rec.get("impl") or {}
+        if b.rec.get("name") != "deserialize" or b.rec["kind"] == "Closure" or not b.file.endswith("encoding/json/decode.rs"):
+            continue
+        if "serde::Deserialize" not in im.get("trait_ref", "") and "serde::de::Deserialize" not in im.get("trait_ref", ""):
+            continue
+        ty = (im.get("self_adt") or im.get("self_ty") or "").split("::")[-1].split("<")[0]
+        if ty not in names:
+            continue  # Value itself and helper types
+        n += 1
+        key = "typed-deserializer:%s" % ty
+        r = K.positive_variants(b, vnames)
+        if r is not None:
+            pos, _neg, dflt = r
+            cond = K.conditional_positive_arms(b, vnames)
+            if pos == {ty} and not dflt and not cond:
+                rep.ok("T-HAYSON", key, b.where(), "Deserialize for %s succeeds exactly for Value::%s" % (ty, ty))
+            else:
+                rep.bad("T-HAYSON", "T-HAYSON:" + key, b.where(), "Deserialize for %s succeeds for %s%s%s, expected exactly {%s}" % (ty, sorted(pos), " and by default" if dflt else "", " (conditionally: %s)" % cond if cond else "", ty))
+            continue
+        # predicate form
+        oks = set()
+        for bi in range(b.n):
+            for st in b.blocks[bi]["stmts"]:
+                if st["k"] == "assign" and not st["lhs"]["p"] and st["lhs"]["l"] == 0 and st["rv"]["k"] == "agg" and st["rv"].get("variant") == "Ok":
+                    oks.add(bi)
+        paths = PC.enumerate_paths(b, lambda x: x in oks)
+        atoms = [a for a in PC.atoms_of(paths) if re.match(r"is_[a-z_]+\(", a)]
+        want = "is_%s(" % ty.lower()
+        good = bool(paths) and len(atoms) == 1 and atoms[0].startswith(want) and "Continue.0" in atoms[0]
+        if good:
+            o, c = PC.entails(paths, lambda asg: bool(asg.get(atoms[0])), PC.atoms_of(paths))
+            good = o
+        if good:
+            rep.ok("T-HAYSON", key, b.where(), "Deserialize for %s succeeds exactly when the decoded value is_%s()" % (ty, ty.lower()))
+        else:
+            rep.bad("T-HAYSON", "T-HAYSON:" + key, b.where(), "Deserialize for %s does not succeed exactly under is_%s() (kind tests on the way to Ok: %s)" % (ty, ty.lower(), atoms or "none"))
+    return n
+
+
+_PRESENCE_WRAPPERS = ("std::option::Option::as_ref", "std::option::Option::as_deref", "std::option::Option::is_some", "std::option::Option::is_none",
+                      "std::option::Option::as_mut", "<std::option::Option as std::clone::Clone>::clone", "std::option::Option::cloned", "std::option::Option::copied")
+# value tests the Hayson encoding itself prescribes (the only conditions on a *value* that may decide whether / how a member is written)
+_PRESCRIBED_TESTS = {
+    "haystack::val::datetime::DateTime::is_utc": "`tz` is omitted exactly for UTC (decided by T-TZGUARD)",
+    "core::f64::<impl f64>::is_finite": "non-finite numbers are spelled as strings",
+    "core::f64::<impl f64>::is_nan": "non-finite numbers are spelled as strings",
+    "core::f64::<impl f64>::is_infinite": "non-finite numbers are spelled as strings",
+    "core::f64::<impl f64>::is_sign_negative": "sign of INF",
+    "core::f64::<impl f64>::fract": "integral numbers are written as integers",
+}
+
+
+def _presence_operand(v):
+    """strip presence plumbing; returns the Val underneath"""
+    for _i in range(6):
+        if v.kind == "discr" and v.args:
+            v = v.args[0]
+        elif v.kind == "call" and strip_generics(v.v) in _PRESENCE_WRAPPERS and v.args:
+            v = v.args[0]
+        else:
+            break
+    return v
+
+
+def check_member_guards(ctx, rep):
+    """whether a member of a tagged Hayson object is written depends only on the *presence* of the corresponding field (`dis`, `unit`,
+    `meta` are written iff the Option is Some), on the variant of the value, and on the value tests the encoding prescribes (UTC for
+    `tz`, finiteness for the spelling of a number) - never on any other property of the field's value: a writer that leaves out an
+    empty meta, a zero, an empty string ... produces a document that denotes a different value"""
+    prog = ctx.prog
+    n = 0
+    for b in prog.bodies.values():
+        if not b.file.endswith("encoding/json/encode.rs") or "::test" in b.id or b.rec["kind"] == "Closure":
+            continue
+        for bi, t in b.calls():
+            nm = strip_generics(mir.callee_name(t) or "")
+            if not nm.endswith(("SerializeMap::serialize_entry", "SerializeMap::serialize_key", "SerializeMap::serialize_value", "SerializeSeq::serialize_element", "serialize_entry", "serialize_element")):
+                continue
+            kd = G.describe(b, t["args"][1]) if len(t["args"]) > 1 else None
+            member = kd.v if kd is not None and kd.kind == "conststr" else "<element>"
+            n += 1
+            key = "member-guard:%s:%s" % (b.short.split(" for ")[-1].split(">")[0].split("::")[-1], member)
+            offending = []
+            for g in G.guards_at(b, bi):
+                if g.a is None:
+                    continue
+                ra = repr(g.a)
+                if "Try>::branch" in ra or "Iterator>::next" in ra or "Iterator::next" in ra:
+                    continue
+                v = _presence_operand(g.a)
+                if v.kind == "place" or re.fullmatch(r"_1\**(\.[A-Za-z_0-9]+)*\**", repr(v)):
+                    continue
+                if v.kind == "call" and strip_generics(v.v) in _PRESCRIBED_TESTS and v.args and re.fullmatch(r"_1\**(\.[A-Za-z_0-9]+)*\**", repr(v.args[0])):
+                    continue
+                if v.kind == "binop" and all(a.kind in ("const",) or (a.kind == "call" and strip_generics(a.v) in _PRESCRIBED_TESTS) or re.fullmatch(r"(cast\()?_1\**(\.[A-Za-z_0-9]+)*\**.*", repr(a)) for a in v.args):
+                    # arithmetic comparison on the number's own value (integer-range guard of the integer spelling)
+                    if "number::Number" in b.id:
+                        continue
+                offending.append(ra[:120])
+            if offending:
+                rep.bad("T-HAYSON", "T-HAYSON:" + key, b.where(bi), "member %r is written only under %s: a condition on the field's value, not on its presence - values for which it is false are written as a different document" % (member, offending))
+            else:
+                rep.ok("T-HAYSON", key, b.where(bi), "written under presence / variant / prescribed tests only")
+    return n
+
+
+def check_members_read_before_ok(ctx, rep):
+    """every member a tagged-object reader looks at is looked at on *every* path to a successful result: an early `return Ok(..)`
+    that skips an optional member (the unit of a number spelled "INF", the dis of a ref ...) silently drops it for the documents
+    that take that path. Must-pass-through over the CFG: with the blocks reading the member removed, no Ok-building block is reachable"""
+    prog = ctx.prog
+    n = 0
+    for b in prog.bodies.values():
+        if not b.file.endswith("encoding/json/decode.rs") or b.rec["kind"] == "Closure" or "::test" in b.id:
+            continue
+        rname = strip_generics(b.id).split("::")[-1]
+        if not rname.startswith("parse_"):
+            continue
+        reads = {}
+        for bi, t in b.calls():
+            nm = strip_generics(mir.callee_name(t) or "")
+            m = re.search(r"(?:HaystackDict>::|BTreeMap::)(get(?:_[a-z]+)?)$", nm)
+            if not m or len(t["args"]) < 2:
+                continue
+            k = G.describe(b, t["args"][1])
+            if k.kind == "conststr" and re.match(r"_1\**", repr(G.describe(b, t["args"][0]))):
+                reads.setdefault(k.v, set()).add(bi)
+        oks = set()
+        for bi in range(b.n):
+            for st in b.blocks[bi]["stmts"]:
+                if st["k"] == "assign" and not st["lhs"]["p"] and st["lhs"]["l"] == 0 and st["rv"]["k"] == "agg" and st["rv"].get("variant") == "Ok":
+                    oks.add(bi)
+        if not oks or not reads:
+            continue
+        for k, blocks in sorted(reads.items()):
+            n += 1
+            key = "member-read-before-ok:%s:%s" % (rname, k)
+            # reachability avoiding the reading blocks (the read happens in the terminator: its successors are not followed)
+            seen, todo = set(), [0]
+            while todo:
+                x = todo.pop()
+                if x in seen:
+                    continue
+                seen.add(x)
+                if x in blocks:
+                    continue
+                todo.extend(y for y in b.succ(x) if not b.blocks[y].get("cleanup"))
+            leak = sorted(o for o in oks if o in seen and o not in blocks)
+            if leak:
+                rep.bad("T-HAYSON", "T-HAYSON:" + key, b.where(leak[0]), "%s returns Ok on a path that never looks at member %r: documents taking that path lose it" % (rname, k))
+            else:
+                rep.ok("T-HAYSON", key, b.where(min(blocks)), "every path to Ok passes a read of %r (must-pass over %d Ok blocks)" % (k, len(oks)))
+    return n
+
+
+DROPPING = ("Iterator::filter", "Iterator::filter_map", "Iterator::skip", "Iterator::take", "Iterator::skip_while", "Iterator::take_while",
+            "Iterator::step_by", "Iterator::nth", "Iterator::last", "Iterator::find", "Iterator::find_map", "Option::filter",
+            "Vec::retain", "Vec::truncate", "Vec::pop", "Vec::drain", "Vec::dedup", "Vec::dedup_by", "Vec::dedup_by_key", "Vec::remove",
+            "Vec::swap_remove", "Vec::clear", "BTreeMap::retain", "BTreeMap::pop_first", "BTreeMap::pop_last", "BTreeMap::clear",
+            "BTreeMap::split_off", "BTreeMap::remove", "BTreeMap::remove_entry", "Dict::remove", "Dict::retain")
+
+
+def check_nothing_dropped(ctx, rep, which="decode"):
+    """between the members of the document and the value built from them nothing is selected away: the Hayson reader calls no
+    filtering / truncating / removing operation on what it decoded - except taking `ver` out of the *grid's* own meta (the version is
+    a field of Grid). "No tag, cell, column or row is lost" for every document, whatever its contents"""
+    from rules import defsrules as DR
+
+    prog = ctx.prog
+    n = 0
+    fsuf = "encoding/json/%s.rs" % which
+    roots = [b for b in prog.bodies.values() if b.file.endswith(fsuf) and b.rec["kind"] != "Closure" and "::test" not in b.id]
+    for b in roots:
+        for c in DR._calls(prog, b):
+            body, bi, nm, args = c[0], c[1], c[2], c[3]
+            short = "::".join(strip_generics(nm).replace("std::collections::", "").replace("std::vec::", "").replace("std::iter::", "").replace("std::option::", "").split("::")[-2:])
+            short = short.replace("<", "").replace(">", "")
+            if not any(short.endswith(d) or strip_generics(nm).endswith(d) for d in DROPPING):
+                continue
+            n += 1
+            fn = strip_generics(b.id).split("::")[-1]
+            if strip_generics(nm).endswith(("BTreeMap::remove", "Dict::remove")) and which == "decode":
+                # the one permitted removal: key "ver", from the meta dict of the grid object itself (parameter _1), not of an element
+                rcv, key_arg = (args + ["", ""])[:2]
+                if key_arg == "conststr:ver" and "conststr:meta" in rcv and "elem(" not in rcv and re.search(r"get_dict\(_1\**, conststr:meta\)", rcv):
+                    rep.ok("T-HAYSON", "nothing-dropped:%s:remove-ver-from-grid-meta" % fn, body.where(bi), "`ver` is taken out of the grid's own meta (it is stored in Grid.ver)")
+                    continue
+                rep.bad("T-HAYSON", "T-HAYSON:nothing-dropped:%s:remove" % fn, body.where(bi), "%s removes %s from %s: a decoded tag is dropped (only `ver` of the grid's own meta may be taken out)" % (fn, key_arg, rcv[:100]))
+                continue
+            rep.bad("T-HAYSON", "T-HAYSON:nothing-dropped:%s:%s" % (fn, short.split("::")[-1]), body.where(bi), "%s passes decoded data through %s: elements / members for which the selection fails never reach the result" % (fn, short))
+    return n
+
+
+def check_refusals(ctx, rep):
+    """a tagged-object reader refuses a document only because a member is absent or of the wrong JSON type, because a sub-parser
+    or table lookup refuses its text (`parse`, `get_unit`, the zone lookup), or on one of the fixed spellings - never through a
+    comparison or range test of its own on a member's value: every value the writer can emit for the member must be readable.
+    Decided on the conditions of all paths to an `Err` result (truth-table atoms of rules/pathcond.py)"""
+    from rules import pathcond as PC
+
+    prog = ctx.prog
+    n = 0
+    for b in prog.bodies.values():
+        if not b.file.endswith("encoding/json/decode.rs") or "::test" in b.id:
+            continue
+        rname = strip_generics(b.rec.get("root", b.id)).split("::")[-1]
+        if not rname.startswith("parse_"):
+            continue
+        errs = set()
+        for bi in range(b.n):
+            for st in b.blocks[bi]["stmts"]:
+                if st["k"] == "assign" and not st["lhs"]["p"] and st["lhs"]["l"] == 0 and st["rv"]["k"] == "agg" and st["rv"].get("variant") == "Err":
+                    errs.add(bi)
+        if not errs:
+            continue
+        n += 1
+        cname = rname + ("" if b.rec["kind"] != "Closure" else ":element")
+        paths = PC.enumerate_paths(b, lambda x: x in errs)
+        bad = []
+        for a in PC.atoms_of(paths):
+            if a.startswith(("some(", "is(")) or (a.startswith("eq(") and "conststr:" in a):
+                continue
+            bad.append(a[:120])
+        key = "refusal-conditions:%s" % cname
+        if bad:
+            rep.bad("T-HAYSON", "T-HAYSON:" + key, b.where(min(errs)), "%s returns an error under a test of a member's value (%s): some values the writer emits for it are refused" % (rname, bad[:3]))
+        else:
+            rep.ok("T-HAYSON", key, b.where(min(errs)), "errors only on absent / wrongly typed members, refused sub-parses and fixed spellings (%d paths)" % len(paths))
+    return n
